@@ -34,6 +34,11 @@ func (sc *sliceContainers) Get(key uint64) *Container {
 }
 
 func (sc *sliceContainers) Put(key uint64, c *Container) {
+	// As in bTreeContainers.Put: if we don't do this, a Put of the container
+	// that replaces the one we just got from GetOrCreate (a frozen container
+	// is cloned on write) leaves the cache pointing at the replaced one, and
+	// the next GetOrCreate for this key returns it instead of the new one.
+	sc.lastKey, sc.lastContainer = key, c
 	i := search64(sc.keys, key)
 
 	// If index is negative then there's not an exact match
